@@ -10,7 +10,7 @@ R-ROLE    the point returned in position 1 lies on the FIRST primitive of `<A>_t
 """
 import ast
 
-from ..core.astutil import u, call_name, iter_stmts, const, parent_map
+from ..core.astutil import u, call_name, iter_stmts, const, parent_map, assign_pairs
 from ..core.peval import peval
 from ..core.index import FuncInfo, AnalysisError
 
@@ -185,8 +185,33 @@ def r_role(idx, rep, rule="R-ROLE", floor=15):
             if pn is None or pn[0] == "point":
                 continue
             f = peval(idx, f)       # role-switch loops (`for first in (True, False)`, tables of operands) are the passes they stand for
+            # single exit with result variables assigned in both arms of an if / else == early returns: every path gets its own return (tail duplication)
+            import copy as _copy
+            from ..core.inline import dup_tail as _dup_tail
+            f_ = _copy.copy(f)
+            f_.node = _dup_tail(f.node)
+            f = f_
             rf = RoleFlow(idx, f)
             rf.run()
+            _pm = parent_map(f.node)
+
+            def _same_point(ret, a, b):
+                """b was bound, in the block of this return, as a plain copy of a (or the other way round): one point that lies on both primitives"""
+                if not (isinstance(a, ast.Name) and isinstance(b, ast.Name)):
+                    return False
+                par = _pm.get(ret)
+                for fld in ("body", "orelse"):
+                    blk = getattr(par, fld, None)
+                    if isinstance(blk, list) and ret in blk:
+                        last = {}
+                        for st in blk[:blk.index(ret)]:
+                            if isinstance(st, ast.Assign):
+                                for t_, v_ in assign_pairs(st):
+                                    if isinstance(t_, ast.Name):
+                                        last[t_.id] = v_
+                        va, vb = last.get(a.id), last.get(b.id)
+                        return (isinstance(vb, ast.Name) and vb.id == a.id) or (isinstance(va, ast.Name) and va.id == b.id)
+                return False
             for r in _returns(f):
                 v = r.value
                 if isinstance(v, ast.Subscript) and isinstance(v.slice, ast.Slice):
@@ -216,7 +241,7 @@ def r_role(idx, rep, rule="R-ROLE", floor=15):
                 r2 = env.get(p2.id) if isinstance(p2, ast.Name) else rf.expr_role(p2, env)
                 key = "%s|return (%s, %s, %s)" % (f.key, u(v.elts[0])[:25], u(p1)[:40], u(p2)[:40])
                 where = "%s:%d" % (m.relpath, r.lineno)
-                if u(p1) == u(p2):
+                if u(p1) == u(p2) or _same_point(r, p1, p2):
                     rep.ok(rule, key, where, "common point")
                     continue
                 if key in ROLE_EXCEPTIONS:
@@ -329,7 +354,20 @@ def _is_subquery(idx, f, st):
     if isinstance(v, ast.Name):
         # copies of local names only; module constants such as MAX_FLOAT are sentinels, not sub-query results
         r = idx.resolve_name(f.module, v.id)
-        return not (r is not None or u(v) in SENTINELS)
+        if r is not None or u(v) in SENTINELS:
+            return False
+        # ... and only of names that (may) hold the result of a sub-query: a local computed right here from the parameters (`p = line_point + t * d`,
+        # then `q = p` for the intersection point that lies on both primitives) is a fresh value, not the answer of another query
+        binds = []
+        for st2 in iter_stmts(f.node.body):
+            if isinstance(st2, ast.Assign) and st2.lineno < st.lineno:
+                for t2 in st2.targets:
+                    for e2 in (t2.elts if isinstance(t2, ast.Tuple) else [t2]):
+                        if isinstance(e2, ast.Name) and e2.id == v.id:
+                            binds.append(st2)
+        if v.id in f.params() or not binds:
+            return True
+        return any(isinstance(b.value, (ast.Call, ast.Name)) and (not isinstance(b.value, ast.Call) or _is_subquery(idx, f, b) or isinstance(b.targets[0], ast.Tuple)) for b in binds)
     return False
 
 
